@@ -285,3 +285,110 @@ Section Steps.
     - apply mp_freenull_step; assumption.
   Qed.
 End Steps.
+
+(* ------------------------------------------------------------------ *)
+(* whole programs *)
+
+Definition ptr_out (t : mp_out * mp_world * list aev) : mp_out := fst (fst t).
+Definition ptr_w (t : mp_out * mp_world * list aev) : mp_world := snd (fst t).
+Definition out_ptr (x : mp_out) : N := match x with POut p _ => p | PUnit => 0 end.
+
+Lemma mp_new_inv size : 0 < size -> mp_inv (mp_world0 size).
+Proof.
+  intros H. unfold mp_inv, mp_world0, mp_new, mp_stacklen; cbn.
+  repeat split; try lia; try constructor; try (intros x []); try (destruct H0).
+Qed.
+
+(* C12 M5: for every program on a pool created with [size] > 0 (short enough for the stack's byte
+   count to stay below 2^64) and every oracle: no Fault / AssertFail, and the spec predicate holds
+   on the pointers returned - malloc never returns an object the client still holds *)
+Theorem mp_run_ok shift olen size ops : forall w o k,
+  mp_inv w -> mp_count w <= k -> mp_allocsize (w_pool w) <= N.max size (2 * k) ->
+  N.max size (2 * (k + N.of_nat (length ops))) * 16 < W64 ->
+  exists tr,
+    mp_run shift 2 8 olen ops w o = Ok tr /\
+    Forall (fun t => mp_inv (ptr_w t)) tr /\
+    mp_spec_ok ops (map (fun t => out_ptr (ptr_out t)) tr) (w_held w) = true.
+Proof.
+  induction ops as [|op ops IH]; intros w o k Hinv Hcnt Hsz Hbig.
+  - exists []. repeat split. constructor.
+  - cbn [length] in Hbig.
+    assert (Hb1 : mp_allocsize (w_pool w) * 16 < W64) by lia.
+    destruct (mp_step_ok shift olen op w o Hinv Hb1) as (x & w1 & o1 & ev & Hs & Hinv1 & Hho & (Hheld & Hshape) & Hal & Hc1).
+    assert (A1 : mp_count w1 <= k + 1) by lia.
+    assert (A2 : mp_allocsize (w_pool w1) <= N.max size (2 * (k + 1))).
+    { destruct Hal as [->|(-> & Heq)]; [lia|]. unfold mp_count in Hcnt. unfold mp_stacklen in Heq. lia. }
+    assert (A3 : N.max size (2 * (k + 1 + N.of_nat (length ops))) * 16 < W64).
+    { replace (k + 1 + N.of_nat (length ops)) with (k + N.of_nat (S (length ops))) by lia. exact Hbig. }
+    destruct (IH w1 o1 (k + 1) Hinv1 A1 A2 A3) as (tr & Hr & Hf & Hspec).
+    cbn [mp_run]. rewrite Hs. cbn [bind]. rewrite Hr. cbn [bind].
+    eexists. split; [reflexivity|]. split; [constructor; assumption|].
+    cbn [map]. unfold ptr_out at 1; cbn [fst snd]. rewrite Hheld in Hspec.
+    destruct op; cbn [mp_spec_ok next_held] in *.
+    + destruct Hshape as (p & reg & ->). cbn [out_ptr next_held] in *.
+      destruct (N.eqb_spec p 0) as [->|Hp]; [exact Hspec|].
+      destruct (Hho p reg eq_refl) as [|Hnotin]; [contradiction|].
+      assert (E : existsb (N.eqb p) (w_held w) = false).
+      { apply not_true_is_false. intros Hex. apply existsb_exists in Hex. destruct Hex as (y & Hy & He).
+        apply N.eqb_eq in He. subst y. contradiction. }
+      rewrite E. exact Hspec.
+    + exact Hspec.
+    + exact Hspec.
+Qed.
+
+(* from the pool as MPOOL(name, type, size) creates it *)
+Corollary mp_no_double_handout shift olen size ops o :
+  0 < size -> N.max size (2 * N.of_nat (length ops)) * 16 < W64 ->
+  exists tr,
+    mp_run shift 2 8 olen ops (mp_world0 size) o = Ok tr /\
+    mp_spec_ok ops (map (fun t => out_ptr (ptr_out t)) tr) [] = true.
+Proof.
+  intros Hs Hbig.
+  destruct (mp_run_ok shift olen size ops (mp_world0 size) o 0) as (tr & Hr & _ & Hspec).
+  - apply mp_new_inv. exact Hs.
+  - cbn. lia.
+  - cbn. lia.
+  - exact Hbig.
+  - exists tr. split; assumption.
+Qed.
+
+(* C12 M5 (exit): the handler registered with atexit gives every cached object back to free()
+   - afterwards the live objects are exactly those the client still holds - and frees the stack
+   if it was allocated *)
+Theorem mp_atexit_frees_all psz olen w :
+  mp_inv w ->
+  let '(pool', ev, freed) := mp_atexit psz olen (w_pool w) in
+  freed = mp_stack (w_pool w) /\ mp_stack pool' = [] /\
+  Permutation (remove_ids (w_live w) freed) (w_held w) /\
+  ev = map (fun _ => AFree olen) (mp_stack (w_pool w)) ++
+       (if mp_static (w_pool w) then [] else [AFree (mp_slots (w_pool w) * psz)]).
+Proof.
+  intros (Hnd & Hrg & Hnx & Hsl & Hslots & Hpos & Hlive). unfold mp_atexit.
+  split; [reflexivity|]. split; [reflexivity|]. split; [|reflexivity].
+  eapply Permutation_trans; [apply remove_ids_perm, Hlive|].
+  rewrite remove_ids_app, remove_ids_all. cbn [app].
+  rewrite remove_ids_disjoint; [apply Permutation_refl|].
+  intros x Hin Hin'. clear -Hnd Hin Hin'.
+  induction (mp_stack (w_pool w)) as [|y l IH]; [destruct Hin'|].
+  cbn [app] in Hnd. inversion Hnd as [|? ? Hnotin Hnd']; subst.
+  destruct Hin' as [->|Hin']; [apply Hnotin; apply in_or_app; right; exact Hin|auto].
+Qed.
+
+(* ------------------------------------------------------------------ *)
+(* examples *)
+
+(* pool of size 2: three objects freed -> the third free doubles the stack (3 > 3 >> 8);
+   the next mallocs hand the cached objects out again in LIFO order, never one still held *)
+Definition pex_prog : list mp_op :=
+  [PMalloc; PMalloc; PMalloc; PFree 1; PMalloc; PFree 0; PFree 0; PFree 0; PMalloc; PMalloc; PFreeNull].
+
+Example pex_runs :
+  exists tr, mp_run 8 2 8 24 pex_prog (mp_world0 2) all_grant = Ok tr /\
+             map (fun t => out_ptr (ptr_out t)) tr = [1; 2; 3; 0; 2; 0; 0; 0; 2; 3; 0] /\
+             mp_spec_ok pex_prog (map (fun t => out_ptr (ptr_out t)) tr) [] = true /\
+             mp_allocsize (w_pool (ptr_w (last tr (PUnit, mp_world0 2, [])))) = 4.
+Proof. eexists. repeat split; vm_compute; reflexivity. Qed.
+
+(* the spec predicate is not trivially true: handing out object 1 twice is rejected *)
+Example pex_spec_rejects : mp_spec_ok [PMalloc; PMalloc] [1; 1] [] = false.
+Proof. reflexivity. Qed.
